@@ -1,0 +1,9 @@
+//go:build verif
+
+package rescache
+
+import "github.com/jirenius/timerqueue"
+
+func timerqueueNew(c *Cache) *timerqueue.Queue {
+	return timerqueue.New(func(interface{}) {}, c.unsubscribeDelay)
+}
